@@ -46,7 +46,7 @@ def gen_cases(ctx):
                 extra = [o for o in ops if o[0] == "remote" and rng.random() < 0.5]
                 cases.append((cfg, ops + extra))
     for _ in range(1200 if ctx.quick else 20000):
-        cfg = G.rand_config(rng, maxcache=50, maxblocks=5)
+        cfg = G.rand_config(rng, maxcache=50 if ctx.quick else 400, maxblocks=5)
         ops = G.rand_ops(rng, cfg, rng.randint(3, 10 if ctx.quick else 25), premote=0.45)
         for i0, o in reversed(list(enumerate(ops))):     # re-deliver some messages later (never earlier)
             if o[0] == "remote" and rng.random() < 0.3:
@@ -61,6 +61,7 @@ def work(case):
     out, fail, nontrivial = [], None, False
     seen = set()
     ncomp = {}
+    overflow = False
     # singleton patterns substitute identifiers (the local run stands for the remote one); their
     # at-most-one-run guarantee is C13's, so the per-identifier bookkeeping here covers the other patterns
     single = {(PL.phname(ph), PL.patname(p["name"])) for ph, ps in cfg["phen"] for p in ps if p["single"]}
@@ -76,6 +77,13 @@ def work(case):
                 fail = SD.remote_raise_failure(dec, k)
             break
         comp, halt, upd = lists
+        # the property is stated with the finished-run memory large enough: stop judging once either deque
+        # (maxlen = max_cache) may have started to forget (the correspondence with the model still covers the rest)
+        c_mem, h_mem, _ = dec.snapshot()
+        if max(len(c_mem), len(h_mem)) >= cfg["maxcache"]:
+            overflow = True
+        if overflow:
+            continue
         for r in comp:
             if (r.phenomenon_name, r.pattern_name) in single:
                 continue      # identifiers of singleton runs are substituted: counted per pattern by C13, not per id
